@@ -1371,7 +1371,8 @@ def write_case(prog, workdir, name="p"):
     text = prog.gdl()
     for fn, t in prog.extra_files.items():
         open(os.path.join(workdir, fn), "w").write(t)
-    open(os.path.join(workdir, name + ".gdl"), "w").write(text)
+    # (latin-1: a program may hold bytes above 0x7F in its strings, one byte per character)
+    open(os.path.join(workdir, name + ".gdl"), "w", encoding="latin-1").write(text)
     json.dump(prog.ir(), open(os.path.join(workdir, name + ".ir.json"), "w"))
     return text
 
